@@ -2,10 +2,12 @@ package main
 
 import (
 	"fmt"
+	"go/ast"
 	"go/constant"
 	"go/token"
 	"go/types"
 	"math/big"
+	"strings"
 
 	"golang.org/x/tools/go/ssa"
 )
@@ -624,7 +626,19 @@ func (x *Exec) unop(st *State, v *ssa.UnOp) Value {
 	case token.MUL:
 		p := x.asPtr(x.val(st, v.X))
 		x.nilCheck(st, p, v, "load")
-		return x.load(st, p)
+		r := x.load(st, p)
+		if g, ok := v.X.(*ssa.Global); ok {
+			if sv, isSlice := r.(SliceV); isSlice {
+				if n := x.globalSliceLen(g); n >= 0 {
+					// package-level table initialised by a composite literal and never reassigned
+					st.assume(b.Eq(sv.Len, b.Int(n)))
+					st.assume(b.Eq(sv.Cap, b.Int(n)))
+					st.assume(b.Eq(sv.Off, b.Int(0)))
+					x.notes["package-level tables keep the length of their initialiser (no store outside init was found)"] = true
+				}
+			}
+		}
+		return r
 	case token.NOT:
 		return b.Not(x.term(st, v.X))
 	case token.SUB:
@@ -1230,4 +1244,89 @@ func (x *Exec) doReturn(st *State, v *ssa.Return) bool {
 	x.userAsserts(st, fr, callName{"@return", 1}, false)
 	x.atReturn(st, fr, res, v)
 	return false
+}
+
+// globalSliceLen returns the number of elements of the composite literal that initialises a
+// package-level slice variable, if the variable is never assigned outside package initialisation.
+func (x *Exec) globalSliceLen(g *ssa.Global) int64 {
+	if n, ok := x.globLen[g]; ok {
+		return n
+	}
+	n := int64(-1)
+	defer func() { x.globLen[g] = n }()
+	if g.Pkg == nil {
+		return n
+	}
+	// any store to the global outside init?
+	for _, m := range g.Pkg.Members {
+		fn, ok := m.(*ssa.Function)
+		if !ok {
+			continue
+		}
+		fns := append([]*ssa.Function{fn}, fn.AnonFuncs...)
+		for _, f := range fns {
+			if f.Name() == "init" || strings.HasPrefix(f.Name(), "init#") {
+				continue
+			}
+			for _, blk := range f.Blocks {
+				for _, in := range blk.Instrs {
+					if st, ok := in.(*ssa.Store); ok && st.Addr == ssa.Value(g) {
+						return n
+					}
+				}
+			}
+		}
+	}
+	for _, mem := range g.Pkg.Members {
+		if t, ok := mem.(*ssa.Type); ok {
+			for _, tt := range []types.Type{t.Type(), types.NewPointer(t.Type())} {
+				ms := x.prog.Prog.MethodSets.MethodSet(tt)
+				for i := 0; i < ms.Len(); i++ {
+					f := x.prog.Prog.MethodValue(ms.At(i))
+					if f == nil {
+						continue
+					}
+					for _, blk := range f.Blocks {
+						for _, in := range blk.Instrs {
+							if st, ok := in.(*ssa.Store); ok && st.Addr == ssa.Value(g) {
+								return n
+							}
+						}
+					}
+				}
+			}
+		}
+	}
+	pp := x.prog.PPkgs[g.Pkg.Pkg.Path()]
+	if pp == nil {
+		return n
+	}
+	for _, f := range pp.Syntax {
+		for _, d := range f.Decls {
+			gd, ok := d.(*ast.GenDecl)
+			if !ok || gd.Tok != token.VAR {
+				continue
+			}
+			for _, sp := range gd.Specs {
+				vs := sp.(*ast.ValueSpec)
+				for i, nm := range vs.Names {
+					if nm.Name != g.Name() || i >= len(vs.Values) {
+						continue
+					}
+					if cl, ok := vs.Values[i].(*ast.CompositeLit); ok {
+						keyed := false
+						for _, e := range cl.Elts {
+							if _, ok := e.(*ast.KeyValueExpr); ok {
+								keyed = true
+							}
+						}
+						if !keyed {
+							n = int64(len(cl.Elts))
+						}
+					}
+				}
+			}
+		}
+	}
+	return n
 }
